@@ -574,3 +574,15 @@ func constantInt64(k *types.Const) (int64, bool) {
 	}
 	return constant.Int64Val(k.Val())
 }
+
+func constantFloat(c *ssa.Const) (float64, bool) {
+	if c.Value == nil {
+		return 0, false
+	}
+	switch c.Value.Kind() {
+	case constant.Int, constant.Float:
+		f, _ := constant.Float64Val(c.Value)
+		return f, true
+	}
+	return 0, false
+}
